@@ -851,7 +851,8 @@ def d13_every_loaded_document_is_searched(chk: Check) -> None:
     prog = chk.prog
     chk.rule("C19-D13", "no `continue` of the per-file loop of "
              "eyaml-rotate-keys stands under an isinstance test of the "
-             "loaded document", floor=1)
+             "loaded document or a textual test for the ENC[ marker",
+             floor=1)
     fi = prog.func("eyaml_rotate_keys.main")
     n = 0
     bad = []
@@ -863,6 +864,14 @@ def d13_every_loaded_document_is_searched(chk: Check) -> None:
             if f.kind == "cond" and any(
                     isinstance(c, ast.Call) and src(c.func) == "isinstance"
                     for c in ast.walk(f.expr)):
+                bad.append((j, f))
+            # ... nor under a test of the raw text for the marker: whether
+            # a value is encrypted is decided on the parsed value with
+            # white-space ignored, so `ENC[` need not be contiguous in the
+            # file (a folded scalar broken after ENC, an escape)
+            if f.kind == "cond" and any(
+                    isinstance(c, ast.Constant) and isinstance(c.value, str)
+                    and "ENC" in c.value for c in ast.walk(f.expr)):
                 bad.append((j, f))
     if bad:
         j, f = bad[0]
